@@ -313,12 +313,7 @@ func (st *State) operand(v ssa.Value) V {
 	case *ssa.Const:
 		return st.constant(c)
 	case *ssa.Global:
-		id, ok := st.x.globals[c]
-		if !ok {
-			id = uint64(len(st.x.globals)+1) * 0x100000
-			st.x.globals[c] = id
-		}
-		return vPtr(bvLit(id, 64), &Prov{Space: "G", Region: "global:" + c.Name()})
+		return st.x.globalAddr(c)
 	case *ssa.Function:
 		return V{K: KFunc, Fn: &Closure{fn: c}}
 	case *ssa.Builtin:
@@ -468,14 +463,10 @@ func (st *State) storeTyped(addr V, val V, t types.Type) {
 // whose contents are given by byteAt; the address is bump-allocated so that it
 // is distinct from every other region when materialised in the global B.
 func (st *State) newByteRegion(n string, byteAt func(s *State, k string) string) V {
-	brk := st.brk["B"]
-	addr := st.define("al", sortBV(64), brk)
+	addr := st.bump("B", n)
 	st.regions++
 	st.x.fresh++
 	space := fmt.Sprintf("B:r%d_%d", st.regions, st.x.fresh)
-	nb := st.freshConst("brkB", sortBV(64))
-	st.assume(and(app("bvuge", nb, bvadd(brk, n)), app("bvult", nb, bvLit(maxAddr, 64)), app("bvuge", bvadd(brk, n), brk)))
-	st.brk["B"] = nb
 	base := &MemVer{kind: mBase, term: "zeromem"}
 	name := st.newMemName("MBr")
 	st.mem[space] = &MemVer{kind: mWrite, term: name, base: base, at: addr, n: n, byteAt: byteAt}
@@ -533,13 +524,9 @@ func (st *State) allocLocal(t types.Type) V {
 
 // allocFresh bump-allocates n bytes in B or H and returns the address.
 func (st *State) allocFresh(space string, nbytes string, zero bool) V {
-	brk := st.brk[space]
-	addr := st.define("al", sortBV(64), brk)
+	addr := st.bump(space, nbytes)
 	st.regions++
 	p := vPtr(addr, &Prov{Space: space, Region: fmt.Sprintf("fresh#%d", st.regions)})
-	nb := st.freshConst("brk"+space, sortBV(64))
-	st.assume(and(app("bvuge", nb, bvadd(brk, nbytes)), app("bvult", nb, bvLit(maxAddr, 64)), app("bvuge", bvadd(brk, nbytes), brk)))
-	st.brk[space] = nb
 	if zero {
 		st.writeSeq(space, addr, nbytes, func(*State, string) string { return bvLit(0, 8) })
 	}
@@ -888,7 +875,7 @@ func (x *Exec) havocLoop(st *State, fr *Frame, ld *loopDesc, phis []*ssa.Phi, mo
 		if all || mods[sp+"+"] {
 			old := st.brk[sp]
 			nb := st.freshConst("brk"+sp, sortBV(64))
-			st.assume(and(app("bvuge", nb, old), app("bvult", nb, bvLit(maxAddr, 64))))
+			st.assume(and(app("bvuge", nb, old), app("bvult", nb, bvLit(brkLimit, 64))))
 			st.brk[sp] = nb
 		}
 	}
@@ -1795,3 +1782,78 @@ func (x *Exec) allocBound(st *State, fr *Frame, site ssa.Instruction, elems stri
 
 func float64bits(f float64) uint64 { return mathFloat64bits(f) }
 func float32bits(f float32) uint32 { return mathFloat32bits(f) }
+
+// globalAddr gives every package-level variable a fixed address in the G memory.
+// The address is derived from the name so that it is the same in every run and query.
+func (x *Exec) globalAddr(g *ssa.Global) V {
+	id, ok := x.globals[g]
+	if !ok {
+		h := uint64(1469598103934665603)
+		for _, c := range []byte(g.Pkg.Pkg.Path() + "." + g.Name()) {
+			h = (h ^ uint64(c)) * 1099511628211
+		}
+		id = 0x10000000 + (h%0x7fff0)*0x1000
+		x.globals[g] = id
+	}
+	p := vPtr(bvLit(id, 64), &Prov{Space: "G", Region: "global:" + g.Name()})
+	p.Typ = g.Type()
+	return p
+}
+
+// assumeGlobals assumes the declared invariants of package-level variables.
+func (x *Exec) globalEnv(st *State) (*CEnv, map[string]*ssa.Global) {
+	vars := map[string]V{}
+	return &CEnv{st: st, vars: vars, fn: x.key}, nil
+}
+
+func (x *Exec) lookupGlobal(name string) *ssa.Global {
+	i := strings.LastIndex(name, ".")
+	if i < 0 || x.ld == nil {
+		return nil
+	}
+	tp, ok := x.ld.types[name[:i]]
+	if !ok {
+		return nil
+	}
+	pkg := x.prog.Package(tp)
+	if pkg == nil {
+		return nil
+	}
+	g, _ := pkg.Members[name[i+1:]].(*ssa.Global)
+	return g
+}
+
+// evalGlobalClause evaluates a `global <pkg.name> <expr over g>` clause in st.
+func (x *Exec) evalGlobalClause(st *State, cl *Clause, prove bool) (string, error) {
+	g := x.lookupGlobal(cl.Name)
+	if g == nil {
+		return "", fmt.Errorf("unknown package-level variable %s", cl.Name)
+	}
+	addr := x.globalAddr(g)
+	et := g.Type().Underlying().(*types.Pointer).Elem()
+	env := &CEnv{st: st, vars: map[string]V{}, fn: x.key, prove: prove}
+	env.vars["g"] = env.loadTyped(addr, et)
+	return env.evalBool(cl.Expr)
+}
+
+const brkStride = uint64(1) << 48
+const brkLimit = uint64(1) << 62
+
+// bump returns the address of a fresh allocation of n bytes in space and
+// advances the break. While the break is concrete, fresh regions sit at fixed
+// strides above every caller-supplied address (a model of an allocator that is
+// unobservable to code that never compares or offsets pointers across
+// objects); after a loop cut the break is symbolic and only ordered.
+func (st *State) bump(space string, n string) string {
+	brk := st.brk[space]
+	if v, _, ok := litVal(brk); ok && v+brkStride < brkLimit {
+		st.assume(app("bvult", n, bvLit(brkStride, 64)))
+		st.brk[space] = bvLit(v+brkStride, 64)
+		return brk
+	}
+	addr := st.define("al", sortBV(64), brk)
+	nb := st.freshConst("brk"+space, sortBV(64))
+	st.assume(and(app("bvuge", nb, bvadd(brk, n)), app("bvult", nb, bvLit(brkLimit, 64)), app("bvuge", bvadd(brk, n), brk)))
+	st.brk[space] = nb
+	return addr
+}
